@@ -53,6 +53,20 @@ def tuple_element_modules():
     return out
 
 
+def single_value_literal_module():
+    """a single literal value that is not an int / str / float: equal values built at run time are distinct objects (shared with C10)"""
+    pre = "from ovld.dependent import StartsWith, EndsWith, Regexp, HasKey, Equals\nfrom fractions import Fraction"
+    src = gen.value_module(
+        "literal_bytes_fraction",
+        [("Literal[b'ab']", "isinstance(v, bytes) and v == b'ab'"),
+         ("Dependent[Fraction, Equals(Fraction(1, 2))]", "isinstance(v, Fraction) and v == Fraction(1, 2)"),
+         ("Dependent[frozenset, Equals(frozenset({1, 2}))]", "isinstance(v, frozenset) and v == frozenset({1, 2})")],
+        "a: int, k: int", "(bytes([97, 98 + a % 3]), Fraction(1 + a % 3, 2 + 2 * (a % 3)), frozenset([1, 2 + a % 3]), b'xy')[k % 4]", None,
+        prelude=pre, extra_static=("object",),
+        warm=("bytes([97, 98])", "Fraction(2, 4)", "frozenset([2, 1])", "b'zz'", "Fraction(1, 3)"), native_only=True)
+    return ("literal_bytes_fraction", src, dict(family="value types", annotations=["Literal[b'ab']", "Equals(Fraction(1, 2))", "Equals(frozenset({1, 2}))"]))
+
+
 def gen_harnesses(tier, seed):
     rng = random.Random(seed)
     out = []
@@ -88,6 +102,15 @@ def gen_harnesses(tier, seed):
         checks = [("int", "int", None), ("bool", "bool", None), ("str", "str", "len(x) <= 2")]
         src = gen.one_position_module(methods, list(range(-2, 10)) + [True, False, "a", "b", "ab", "", "{", "{{", "}", "{}", "{x}", "a{", "'", '"', "\\", "%s"], checks)
         out.append((f"c11_lit_{i}", src, dict(family="Literal", methods=[{k: v for k, v in m.items()} for m in methods])))
+
+    # fixed literal sets: values that are == but of different types (bool / int / float), in both orders
+    for i, vals in enumerate(([False, 0], [0, False], [True, 1], [1, True, "a"], [0], [True])):
+        methods = [dict(kind="ann", ann=lit_ann(vals), bound=lit_bound(vals), prio=0,
+                        pred="any(type(x) is not float and x == _v for _v in " + repr(tuple(vals)) + ")"),
+                   dict(kind="static", bound="int", prio=-1), dict(kind="static", bound="object", prio=-2)]
+        checks = [("int", "int", None), ("bool", "bool", None)]
+        out.append((f"c11_litmixed_{i}", gen.one_position_module(methods, [0, 1, 2, True, False, "a", 0.0, 1.0], checks),
+                    dict(family="Literal with equal values of different types", methods=methods)))
 
     # ---- built-in value types
     def vm(name, anns, sig, build, pre, **kw):
@@ -152,6 +175,7 @@ def gen_harnesses(tier, seed):
     vm("c11_regexp_anchored_alternation", [("Regexp['^a|b']", "isinstance(v, str) and _re.search('^a|b', v) is not None"),
                                            ("Regexp['^xy|y$']", "isinstance(v, str) and _re.search('^xy|y$', v) is not None")],
        "s: str", "s", "len(s) <= 3", prelude=PRE, extra_static=("str", "object"), warm=("'ab'", "'xb'", "'xy'", "'zy'", "'q'"))
+    out.append(("c11_literal_bytes_fraction",) + single_value_literal_module()[1:])
     vm("c11_haskey", [("HasKey['a']", "isinstance(v, dict) and 'a' in v"), ("HasKey['a', 'b']", "isinstance(v, dict) and 'a' in v and 'b' in v")],
        "i: int, j: int, x: int", "{('a', 'b', 'c')[i % 3]: x, ('a', 'b', 'c')[j % 3]: x}", None, prelude=PRE, extra_static=("dict", "object"),
        warm=("{'a': 1}", "{'a': 1, 'b': 2}", "{'c': 1}"))
